@@ -186,10 +186,27 @@ DECLS = {
     'min-height': ['auto', '4px', '1em', '0'],
     'top': ['auto', '3px', '1em', '10%'],
     'text-underline-offset': ['auto', '2px', '0.25em'],
+    'page': ['auto', 'chapter', 'index'],
+    'border-spacing': ['0', '2px', '1em 0.5em', '1rem', 'inherit'],
+    'border-top-left-radius': ['0', '4px', '1em 50%', '25%'],
+    'border-radius': ['2px', '1em / 10%'],
+    'background-position': ['left top', 'left 1em top 10%', '50% 2px', 'right 1rem bottom 0'],
+    'transform-origin': ['1em 2em', 'left top', '50% 50% 2px'],
+    'background-size': ['auto', 'cover', '1em auto, contain', '50% 2rem'],
+    'border-image-slice': ['10', '10 20% fill', '1 2 3 4'],
+    'border-image-width': ['1', 'auto', '2 10% auto'],
+    'border-image-outset': ['0', '1 2px', '0.5em'],
+    'border-image-repeat': ['stretch', 'round space'],
+    'transform': ['none', 'translate(1em, 2px)', 'translate(10%) scale(2)'],
+    'bookmark-label': ['content(text)', 'attr(id) "z"', '"a"'],
+    'string-set': ['none', 'a content(text)', 'b "x" attr(id)'],
+    'clip': ['auto', 'rect(1px, auto, 1em, 2px)'],
+    '-weasy-lang': ['none', '"fr"', 'attr(lang)'],
 }
 # keys read on every element whatever the declarations
 ALWAYS_KEYS = ['color', 'font_size', 'font_weight', 'width', 'text_indent', 'line_height', 'display', 'float',
-               'position', 'visibility', 'border_top_width', 'break_before', 'text_decoration_line', 'page', 'z_index']
+               'position', 'visibility', 'border_top_width', 'break_before', 'text_decoration_line', 'page', 'z_index',
+               'anchor', 'lang', 'content', 'border_spacing', 'text_align_all', 'margin_left']
 
 
 def random_document(rng):
@@ -204,7 +221,7 @@ def random_document(rng):
         elements.append({
             'id': f'e{k}', 'tag': tag, 'parent': parent,
             'classes': sorted(rng.sample(['c0', 'c1', 'c2'], rng.choice([0, 1, 1, 2]))),
-            'data': rng.choice([None, None, 'u', 'v']), 'style': None,
+            'data': rng.choice([None, None, 'u', 'v']), 'style': None, 'lang': rng.choice([None, None, None, 'de', 'en']),
             'align': rng.choice([None, None, None, 'center', 'right', 'middle', 'justify']) if tag in ('div', 'p') else None})
     styles = {}
 
@@ -256,8 +273,16 @@ def random_document(rng):
         make_styles(ids)
         text = rng.choice(ATTR_MEDIA) if kind == 'author' and rng.random() < 0.35 else None
         media = None if text is None else attr_media(text)
-        sheets.append({'kind': kind, 'place': rng.choice(['style', 'link']) if kind == 'author' else kind,
-                       'media_text': text, 'media': media, 'tree': tree})
+        sheet = {'kind': kind, 'place': rng.choice(['style', 'link']) if kind == 'author' else kind,
+                 'media_text': text, 'media': media, 'tree': tree}
+        if kind == 'author' and rng.random() < 0.3:
+            # attributes find_stylesheets looks at: type, rel, href
+            sheet['type'] = rng.choice([None, 'text/css', 'text/css; charset=utf-8', ' text/css ', 'text/plain', 'text/x-css'])
+            if sheet['place'] == 'link':
+                sheet['rel'] = rng.choice(['stylesheet', 'STYLESHEET', 'alternate stylesheet', 'stylesheet Alternate',
+                                           'icon', 'x stylesheet y', 'style-sheet'])
+                sheet['href'] = rng.choice(['ok', 'ok', 'ok', 'none', 'missing'])
+        sheets.append(sheet)
     for el in elements:
         if rng.random() < 0.35:
             el['style'] = declarations()
@@ -274,8 +299,10 @@ def element_html(doc, k):
         attrs += f' data-k={el["data"]}'
     if el['align']:
         attrs += f' align={el["align"]}'
+    if el.get('lang'):
+        attrs += f' lang={el["lang"]}'
     if el['style']:
-        attrs += f' style="{el["style"]}"'
+        attrs += ' style="' + el['style'].replace('"', '&quot;') + '"'
     kids = ''.join(element_html(doc, j) for j, e in enumerate(doc['elements']) if e['parent'] == k)
     return f'<{el["tag"]}{attrs}>t{k}{kids}</{el["tag"]}>'
 
@@ -288,6 +315,8 @@ def build(doc):
         text = rule_tree_css(sheet['tree'], store, styles=doc['styles'])
         sheet['text'] = text
         media = '' if sheet['media_text'] is None else f' media="{sheet["media_text"]}"'
+        if sheet.get('type') is not None:
+            media += f' type="{sheet["type"]}"'
         if sheet['kind'] == 'ua':
             ua.append(text)
         elif sheet['kind'] == 'user':
@@ -296,8 +325,9 @@ def build(doc):
             head.append(f'<style{media}>{text}</style>')
         else:
             name = f'l{len(store)}.css'
-            store[name] = text
-            head.append(f'<link rel=stylesheet href="{name}"{media}>')
+            store[name] = text if sheet.get('href', 'ok') != 'missing' else None
+            href = '' if sheet.get('href') == 'none' else f' href="{name}"'
+            head.append(f'<link rel="{sheet.get("rel", "stylesheet")}"{href}{media}>')
     body = ''.join(element_html(doc, k) for k, e in enumerate(doc['elements']) if e['parent'] is None)
     return f'<html><head>{"".join(head)}</head><body>{body}</body></html>', ua, user
 
@@ -394,7 +424,7 @@ def model_input(doc, html):
     for sheet in doc['sheets']:
         index = len(sheets_w)
         sheets_w.append([sheet['kind'], opt(sheet['media']) if sheet['kind'] == 'author' else 'none',
-                         rule_tree_wire(sheet['tree'], nsel)])
+                         rule_tree_wire(sheet['tree'], nsel)] + ([sheet_elem_wire(sheet)] if sheet['kind'] == 'author' else []))
         for rid in style_ids_of(sheet['tree']):
             selectors, _ = doc['styles'][str(rid)]
             for j, selector in enumerate(cssselect2.compile_selector_list(', '.join(selectors))):
@@ -410,8 +440,30 @@ def model_input(doc, html):
             if doc['ph'] and el['tag'] == 'div' and el['align']:
                 align = 'center' if el['align'] == 'middle' else el['align']
                 blocks.append([[0, 0, 0, 0], [w_decl(*d) for d in declarations_of(f'text-align:{align}')]])
-        elems_w[key] = [blocks, hits[key]]
+        elems_w[key] = [blocks, hits[key], [[k, enc(v)] for k, v in wrappers[key].etree_element.attrib.items()
+                                            if k in ('id', 'lang', 'title', 'name')]]
     return doc_w, elems_w
+
+
+def sheet_elem_wire(sheet):
+    """(mime isLink hasHref (rel tokens) fetchOk): the attribute values as find_stylesheets extracts them."""
+    mime = (sheet.get('type') if sheet.get('type') is not None else 'text/css').split(';', 1)[0].strip()
+    return [mime.replace(' ', '_') or '_', sheet['place'] == 'link', sheet.get('href', 'ok') != 'none',
+            sheet.get('rel', 'stylesheet').split(), sheet.get('href', 'ok') != 'missing']
+
+
+def sheet_applies_by_spec(sheet, device):
+    """HTML: a <style>/<link> sheet applies iff its type is text/css, its media matches, and (for <link>) rel
+    contains `stylesheet` (ASCII case-insensitively) without `alternate`, with an href that can be fetched."""
+    mime = (sheet.get('type') if sheet.get('type') is not None else 'text/css').split(';', 1)[0].strip()
+    if mime != 'text/css':
+        return False
+    if sheet['media'] is not None and not ('all' in sheet['media'] or device in sheet['media']):
+        return False
+    if sheet['place'] == 'link':
+        rels = [r.lower() for r in sheet.get('rel', 'stylesheet').split()]
+        return 'stylesheet' in rels and 'alternate' not in rels and sheet.get('href', 'ok') == 'ok'
+    return True
 
 
 def style_ids_of(tree):
@@ -445,7 +497,6 @@ def declared_keys(doc):
     for text in texts:
         for name, value, _ in declarations_of(text):
             keys.add(name)
-    keys.discard('content')
     return sorted(keys)
 
 
@@ -619,7 +670,9 @@ def conflict_section(run):
 # oracle: the property statement on a generated document, independent of the Lean model
 
 ORACLE_KEYS = ['color', 'visibility', 'white_space', 'orphans', 'z_index', 'font_size', 'font_weight', 'width',
-               'text_indent', 'break_before', 'border_top_style', 'opacity', 'float', 'border_top_width', 'text_align_all']
+               'text_indent', 'break_before', 'border_top_style', 'opacity', 'float', 'border_top_width', 'text_align_all',
+               'margin_left', 'line_height', 'text_decoration_line', 'page', 'background_position', 'border_spacing',
+               'border_top_left_radius']
 
 
 # CSS 2.1 / css-values / css-fonts-3 constants of the oracle (its own copy, not the implementation's tables)
@@ -631,16 +684,23 @@ SPEC_FONT_WEIGHT = {
     'lighter': {100: 100, 200: 100, 300: 100, 400: 100, 500: 100, 600: 400, 700: 400, 800: 700, 900: 700}}
 SPEC_BORDER_WIDTHS = {'thin': 1, 'medium': 3, 'thick': 5}      # unspecified beyond thin <= medium <= thick
 SPEC_INHERITED = {'color', 'visibility', 'white_space', 'orphans', 'font_size', 'font_weight', 'text_indent',
-                  'text_align_all'}
+                  'text_align_all', 'line_height', 'border_spacing'}
 SPEC_INITIAL = {'color': 'black', 'visibility': 'visible', 'white_space': 'normal', 'orphans': 2, 'z_index': 'auto',
                 'font_size': 16, 'font_weight': 400, 'width': 'auto', 'text_indent': ('px', 0), 'break_before': 'auto',
                 'border_top_style': 'none', 'opacity': 1, 'float': 'none', 'position': 'static',
-                'border_top_width': 3, 'text_align_all': 'start'}
+                'border_top_width': 3, 'text_align_all': 'start', 'margin_left': ('px', 0), 'line_height': 'normal',
+                'text_decoration_line': 'none', 'page': 'auto'}
 
 
 def spec_initial(name):
     from tinycss2.color4 import parse_color
     from weasyprint.css.properties import Dimension
+    if name == 'background_position':
+        return (('left', Dimension(0, '%'), 'top', Dimension(0, '%')),)
+    if name == 'border_spacing':
+        return (0, 0)
+    if name == 'border_top_left_radius':
+        return (Dimension(0, 'px'), Dimension(0, 'px'))
     value = SPEC_INITIAL[name]
     if name == 'color':
         return parse_color('black')
@@ -685,14 +745,17 @@ def oracle_styles(doc, html, rank, reference_winner):
     wrappers['@html'] = html.wrapper_element
     wrappers['@body'] = next(w for w in html.wrapper_element.iter_subtree() if w.local_name == 'body')
     VHTML, _, _ = docs._env()
-    candidates = {key: [] for key in wrappers}      # (name, value, origin, important, is_attr, spec)
+    candidates = {(key, pseudo): [] for key in wrappers for pseudo in (None, 'before', 'after')}
+    # (name, value, origin, important, is_attr, spec)
     fixed = [('user agent', css) for css in VHTML(string='<p>')._ua_stylesheets()]
     if doc['ph']:
         fixed.append(('ph', HTML5_PH_STYLESHEET))
 
-    def add(key, origin, spec, decls, is_attr=False):
+    def add(key, origin, spec, decls, is_attr=False, pseudo=None):
+        if pseudo not in (None, 'before', 'after'):
+            return
         for name, value, imp in decls:
-            candidates[key].append((name, value, 'author' if origin == 'ph' else origin, bool(imp), is_attr,
+            candidates[(key, pseudo)].append((name, value, 'author' if origin == 'ph' else origin, bool(imp), is_attr,
                                     (0, 0, 0) if origin == 'ph' else tuple(spec)))
     # source order: UA sheets, then hints (lowest author), then author sheets in document order, user sheets
     ordered = [s for s in doc['sheets'] if s['kind'] == 'ua']
@@ -701,22 +764,20 @@ def oracle_styles(doc, html, rank, reference_winner):
             continue
         for test, spec, order, pseudo, payload in matcher_entries(css.matcher):
             for key, w in wrappers.items():
-                if pseudo is None and test(w):
-                    add(key, origin, spec, payload)
+                if test(w):
+                    add(key, origin, spec, payload, pseudo=pseudo)
     origin_of = {'ua': 'user agent', 'author': 'author', 'user': 'user'}
 
     def add_sheet(sheet):
-        if sheet['kind'] == 'author' and sheet['media'] is not None and not (
-                'all' in sheet['media'] or doc['device'] in sheet['media']):
+        if sheet['kind'] == 'author' and not sheet_applies_by_spec(sheet, doc['device']):
             return
         for rid in oracle_flatten(sheet['tree'], doc['device']):
             selectors, decl_text = doc['styles'][str(rid)]
             decls = declarations_of(decl_text)
             for selector in cssselect2.compile_selector_list(', '.join(selectors)):
-                if selector.pseudo_element is None:
-                    for key, w in wrappers.items():
-                        if selector.test(w):
-                            add(key, origin_of[sheet['kind']], selector.specificity, decls)
+                for key, w in wrappers.items():
+                    if selector.test(w):
+                        add(key, origin_of[sheet['kind']], selector.specificity, decls, pseudo=selector.pseudo_element)
     for sheet in ordered:
         add_sheet(sheet)
     if doc['ph']:
@@ -726,8 +787,8 @@ def oracle_styles(doc, html, rank, reference_winner):
                 add(el['id'], 'ph', (0, 0, 0), declarations_of(f'text-align:{align}'))
         for test, spec, order, pseudo, payload in matcher_entries(HTML5_PH_STYLESHEET.matcher):
             for key, w in wrappers.items():
-                if pseudo is None and test(w):
-                    add(key, 'ph', (0, 0, 0), payload)
+                if test(w):
+                    add(key, 'ph', (0, 0, 0), payload, pseudo=pseudo)
     for sheet in doc['sheets']:
         if sheet['kind'] == 'author':
             add_sheet(sheet)
@@ -741,13 +802,49 @@ def oracle_styles(doc, html, rank, reference_winner):
     expected = {}
 
     def computed(key, name):
+        """key = (element key, pseudo) or None (no parent)."""
+        if isinstance(key, str):
+            key = (key, None)
         if (key, name) in expected:
             return expected[(key, name)]
-        path = path_of(doc, key)
-        parent = path[1] if len(path) > 1 else None
+        if key[1] is not None:
+            parent = (key[0], None)         # a pseudo-element inherits from its element
+        else:
+            path = path_of(doc, key[0])
+            parent = (path[1], None) if len(path) > 1 else None
         decls = [(v, o, i, a, s) for n, v, o, i, a, s in candidates[key] if n == name]
         value = reference_winner(decls) if decls else ('inherit' if name in INHERITED else 'initial')
-        if value == 'inherit' and name == 'float':
+        def olen(v, pixels=False):
+            """css-values: a <length> computes to px (em / rem against the element's / the root's font size)."""
+            if not isinstance(v, Dimension):
+                return v
+            if v.value == 0:
+                return 0 if pixels else Dimension(0, 'px')
+            if v.unit == 'em':
+                px = v.value * computed(key, 'font_size')
+            elif v.unit == 'rem':
+                px = v.value * computed('@html', 'font_size')
+            elif v.unit in LENGTHS_TO_PIXELS:
+                px = v.value * LENGTHS_TO_PIXELS[v.unit]
+            else:
+                return v
+            return px if pixels else Dimension(px, 'px')
+        if name == 'page':
+            # css-page-3: `auto` uses the value of the nearest ancestor, the empty name at the root
+            own = 'auto' if value in ('initial', 'inherit') else value
+            result = own if own != 'auto' else (computed(parent, name) if parent else '')
+        elif name == 'background_position' and value not in ('inherit', 'initial'):
+            result = tuple((ox, olen(px), oy, olen(py)) for ox, px, oy, py in value)
+        elif name == 'border_spacing' and value not in ('inherit', 'initial'):
+            result = tuple(olen(v, pixels=True) for v in value)
+        elif name == 'border_top_left_radius' and value not in ('inherit', 'initial'):
+            result = tuple(olen(v) for v in value)
+        elif name == 'text_decoration_line':
+            # propagated to descendants (css-text-decor-3 §2.1), modelled by the code as a union
+            own = 'none' if value in ('initial', 'none') else value
+            above = computed(parent, name) if parent else 'none'
+            result = own if above == 'none' else (above if own == 'none' else set(own) | set(above))
+        elif value == 'inherit' and name == 'float':
             result = None       # `float: inherit` is stored without applying CSS 2.1 9.7 (not judged)
         elif value == 'inherit':
             result = computed(parent, name) if parent else spec_initial(name)
@@ -776,7 +873,20 @@ def oracle_styles(doc, html, rank, reference_winner):
                 result = FONT_WEIGHT_RELATIVE[value][base]
             else:
                 result = {'normal': 400, 'bold': 700}.get(value, value)
-        elif name in ('width', 'text_indent') and isinstance(value, Dimension):
+        elif name == 'line_height':
+            if value == 'normal':
+                result = value
+            elif value.unit is None:
+                result = ('NUMBER', value.value)
+            elif value.unit == '%':
+                result = ('PIXELS', value.value / 100 * computed(key, 'font_size'))
+            elif value.unit == 'em':
+                result = ('PIXELS', value.value * computed(key, 'font_size'))
+            elif value.unit == 'rem':
+                result = ('PIXELS', value.value * computed('@html', 'font_size'))
+            else:
+                result = ('PIXELS', value.value * LENGTHS_TO_PIXELS[value.unit])
+        elif name in ('width', 'text_indent', 'margin_left') and isinstance(value, Dimension):
             if value.value == 0:
                 result = Dimension(0, 'px')
             elif value.unit == 'em':
@@ -815,12 +925,18 @@ def oracle_styles(doc, html, rank, reference_winner):
         return result
     out = {}
     for el in doc['elements']:
-        out[el['id']] = {name: computed(el['id'], name) for name in ORACLE_KEYS}
+        for pseudo in (None, 'before', 'after'):
+            if pseudo is None or candidates[(el['id'], pseudo)]:
+                out[(el['id'], pseudo)] = {name: computed((el['id'], pseudo), name) for name in ORACLE_KEYS}
     return out
 
 
 def same(a, b):
     from weasyprint.css.properties import Dimension
+    if isinstance(a, tuple) and isinstance(b, tuple) and not isinstance(a, Dimension) and not isinstance(b, Dimension):
+        return len(a) == len(b) and all(same(x, y) for x, y in zip(a, b))
+    if isinstance(a, (set, frozenset)) or isinstance(b, (set, frozenset)):
+        return not isinstance(a, str) and not isinstance(b, str) and set(a) == set(b)
     if isinstance(a, Dimension) and isinstance(b, Dimension):
         return a.unit == b.unit and same(a.value, b.value)
     if isinstance(a, (int, float)) and isinstance(b, (int, float)):
@@ -853,9 +969,9 @@ def document_violation(doc, rank, reference_winner):
     want = oracle_styles(doc, html, rank, reference_winner)
     observed = observed_styles(doc, html, style_for, pages)
     for (key, pseudo), (style, where) in sorted(observed.items(), key=str):
-        if pseudo is not None or key not in want:
+        if (key, pseudo) not in want:
             continue
-        for name, expected in want[key].items():
+        for name, expected in want[(key, pseudo)].items():
             if expected is None:
                 continue
             try:
@@ -863,7 +979,7 @@ def document_violation(doc, rank, reference_winner):
             except Exception as exc:  # noqa: BLE001
                 return f'{where}.style[{name!r}] of #{key} raised {type(exc).__name__}: {exc}'
             if not same(got, expected):
-                return (f'{where}.style[{name!r}] of #{key} is {got!r}, the cascade / inheritance / computed-value '
+                return (f'{where}.style[{name!r}] of #{key}{"::" + pseudo if pseudo else ""} is {got!r}, the cascade / inheritance / computed-value '
                         f'rules of CSS give {expected!r}')
     return None
 
@@ -871,9 +987,34 @@ def document_violation(doc, rank, reference_winner):
 # ---------------------------------------------------------------------------------------------
 # judge / search / replay
 
+def judge_all_properties(meta, impl):
+    """absence / inherit / initial / failed var() for any property, stated directly."""
+    from weasyprint.css.computed_values import COMPUTER_FUNCTIONS
+    from weasyprint.css.properties import INHERITED, INITIAL_NOT_COMPUTED, INITIAL_VALUES
+    key, own, parent = meta['key'], meta['own'], meta['parent']
+    has_parent = parent is not None
+    parent_declares = bool(parent)
+    if key.startswith('text_decoration_') or key == 'page':
+        return None             # propagated, not inherited
+    inherits = own == 'inherit' or (own in ('absent', 'pending-invalid', 'anonymous') and key in INHERITED)
+    if inherits and has_parent and parent_declares and key not in COMPUTER_FUNCTIONS:
+        want = 'kw:sentinel-value'
+    elif key in INITIAL_NOT_COMPUTED or (inherits and has_parent):
+        return None             # needs the computing functions: judged elsewhere
+    else:
+        want = canon(INITIAL_VALUES[key])
+    got = impl.split('=', 1)[1]
+    if got != want:
+        return (f'{key} with {own} on {"a child of a root that " + ("declares it" if parent_declares else "does not declare it") if has_parent else "the root"}: '
+                f'value {got}, inheritance / initial value rules give {want}')
+    return None
+
+
 def judge(d, reference_winner, reference_page_match, rank):
     section, meta = d['section'], d.get('meta') or {}
     impl = d['impl']
+    if section == 'all-properties':
+        return judge_all_properties(meta, impl)
     if section == 'declaration-precedence':
         key = (meta['origin'], meta['importance'])
         if key in rank and impl != str(rank[key]):
@@ -935,6 +1076,26 @@ def judge_computed(meta, impl):
         return f'float computes to {impl} on an absolutely positioned box (must be none)'
     if fn == 'break_before_after' and value == "'always'" and impl != 'kw:page':
         return f'break-*: always computes to {impl}, not page'
+    if fn in ('border_image_slice', 'border_image_width', 'border_image_outset') and impl.startswith('tup['):
+        # four-value expansion: 1 value -> all sides, 2 -> (vertical, horizontal), 3 -> left = right
+        try:
+            from fractions import Fraction
+            from weasyprint.css.properties import Dimension
+            given = eval(value, {'Dimension': Dimension, 'Fraction': Fraction})     # noqa: S307 - repr of a generated value
+        except Exception:  # noqa: BLE001
+            given = None
+        if isinstance(given, tuple):
+            n = len([v for v in given if v != 'fill'])
+            out = impl[4:-1].split('|')
+            sides = out[:4]
+            want = {1: [0, 0, 0, 0], 2: [0, 1, 0, 1], 3: [0, 1, 2, 1]}.get(n)
+            if want and len(sides) == 4 and any(sides[i] != sides[j] for i, j in enumerate(want)):
+                return (f'{meta.get("key")}: {value} expands to {sides}; top/right/bottom/left must be taken from the '
+                        f'given values at positions {want}')
+    if fn == 'content' and value in ("('normal',)", "('none',)"):
+        want = 'kw:inhibit' if value == "('none',)" or meta.get('pseudo') else 'kw:contents'
+        if impl != want:
+            return f'content {value} on {"a pseudo-element" if meta.get("pseudo") else "an element"} computes to {impl}, not {want}'
     if fn == 'font_weight' and value in ("'normal'", "'bold'"):
         want = {"'normal'": 'num:400', "'bold'": 'num:700'}[value]
         if impl != want:
@@ -1078,3 +1239,13 @@ def replay_media_attr_case():
     lower = color('<style media="print">p{color:red}</style><p>a</p>')
     at_media = color('<style>@media PRINT{p{color:red}}</style><p>a</p>')
     return lower == at_media and upper != lower
+
+
+def replay_border_image_width():
+    """known finding: border-image-width lengths are not computed (em stays em; drawing asserts px)."""
+    doc = docs.render('<p style="font-size:10px;border:4px solid;border-image-width:2em">a</p>')
+    for box in doc.pages[0]._page_box.descendants():
+        if box.element_tag == 'p':
+            value = box.style['border_image_width'][0]
+            return getattr(value, 'unit', None) == 'em'
+    return False
